@@ -59,6 +59,8 @@ PROPS = {
         "technique": "Verus loop invariants on the extracted remove_nan_mut body; bounded memory-level enumeration of the unsafe view builders",
         "design_ref": "DESIGN.md 4 (C04)",
         "verus": [("nan", "N")],
+        "kani": {"bounded_quick": ["bounded_cast_view_f64", "bounded_cast_view_opt_i32"], "bounded_thorough": ["bounded_remove_nan_opt_i8"], "bounded_timeout": 2400,
+                 "bound": "cast_view_mut on every slice (start,end,|step|<=3) of a 12-element buffer: pointer/len/stride preserved (symbolic); thorough: Option<i8>::remove_nan_mut end-to-end on symbolic contents, views of <= 3 elements with |step|<=2 in a 6-element buffer: length, address containment, no None reachable (about 16 min)"},
         "enum": [{"name": "nanview"}],
         "assumptions": [A_ND, A_VERUS, A_EXTRACT, A_ENUM, "unsafe code (cast_view_mut, Option<T>::remove_nan_mut pointer casts, NotNone::deref's unreachable_unchecked) is outside Verus; covered only by the bounded memory-level enumeration"],
         "not_decided": ["soundness of the unsafe view builders beyond the enumerated bound"],
@@ -153,7 +155,7 @@ PROPS.update({
         "design_ref": "DESIGN.md 4 (C19)",
         "verus": [("sort", "N")],
         "also_tags": ["C02"],
-        "kani": {"complete": KERN_COMPLETE, "bounded_quick": INDEX_HARNESSES, "bound": KANI_BOUND},
+        "kani": {"complete": KERN_COMPLETE, "bounded_quick": INDEX_HARNESSES, "bounded_thorough": LINEAR_HARNESSES, "bound": KANI_BOUND},
         "enum": [{"name": "qlaws"}],
         "assumptions": [A_ND, A_RNG, A_ORD, A_STD, A_VERUS, A_EXTRACT, A_ENUM, BOUNDED_NOTE],
         "not_decided": ["floating-point Linear interpolation up to one ulp"],
@@ -167,7 +169,7 @@ PROPS.update({
         "verus": [("sort", "N")],
         "enum": [{"name": "select_many", "abort_props": ["C02"]}, {"name": "quantiles", "abort_props": ["C01"]}, {"name": "means", "abort_props": ["C06"]}],
         "assumptions": [A_ND, A_RNG, A_ORD, A_STD, A_VERUS, A_EXTRACT, A_ENUM, BOUNDED_NOTE],
-        "not_decided": ["central_moments(p)[k] == central_moment(k) bit for bit", "per-axis weighted variance / standard deviation (floats)"],
+        "not_decided": ["central_moments(p)[k] == central_moment(k) and per-axis weighted variance / standard deviation vs the whole-array routine: decided only bounded (bit-for-bit comparison on sampled f64 arrays, orders 0..10, ddof in {0, .5, 1}), not proved"],
     },
     "C03": {
         "level": "proof",
